@@ -106,6 +106,12 @@ pub mod degenerate {
     const UNITS: (&[GenericArray<(), U3>], &[()]) = GenericArray::<(), U3>::chunks_from_slice(&[(); 8]);
     const PAD: (&[GenericArray<(u8, u16), U2>], &[(u8, u16)]) = GenericArray::<(u8, u16), U2>::chunks_from_slice(&[(1, 2), (3, 4), (5, 6)]);
     const W: (&[GenericArray<u32, U2>], &[u32]) = GenericArray::<u32, U2>::chunks_from_slice(&[1, 2, 3, 4, 5]);
+    const Z3: &[GenericArray<u8, U0>] = GenericArray::<u8, U0>::from_chunks(&[[0u8; 0]; 3]);
+    const Z3B: &[[u8; 0]] = GenericArray::<u8, U0>::into_chunks(Z3);
+    const WFLAT: &[u32] = GenericArray::<u32, U2>::slice_from_chunks(W.0);
+    const PFLAT: &[(u8, u16)] = GenericArray::<(u8, u16), U2>::slice_from_chunks(PAD.0);
+    const UFLAT: &[()] = GenericArray::<(), U3>::slice_from_chunks(UNITS.0);
+    pub const MORE: [usize; 6] = [Z3.len(), Z3B.len(), WFLAT.len(), PFLAT.len(), UFLAT.len(), WFLAT[3] as usize];
     pub const LENS: [usize; 9] = [EMPTY.0.len(), EMPTY.1.len(), E0.as_slice().len(), UNITS.0.len(), UNITS.1.len(), PAD.0.len(), PAD.1.len(), W.0.len(), W.1.len()];
     pub const VALS: [u32; 4] = [PAD.0[0].as_slice()[1].1 as u32, PAD.1[0].0 as u32, W.0[1].as_slice()[0], W.1[0]];
     harness! { unwind 6, fn agrees() {
@@ -117,6 +123,14 @@ pub mod degenerate {
         assert!(VALS[j] == wv[j]);
         let (c, r) = GenericArray::<(), U3>::chunks_from_slice(&[(); 8]);
         assert!(c.len() == LENS[3] && r.len() == LENS[4]);
+        let k = any_upto(5);
+        let wm: [usize; 6] = [3, 3, 4, 2, 6, 4];
+        assert!(MORE[k] == wm[k], "const from_chunks / slice_from_chunks of a degenerate or multi-byte case differs");
+        let raw = [[0u8; 0]; 3];
+        assert!(GenericArray::<u8, U0>::from_chunks(&raw).len() == 3, "from_chunks loses the outer length for N = 0");
+        let w = [1u32, 2, 3, 4, 5];
+        let (wc, _) = GenericArray::<u32, U2>::chunks_from_slice(&w);
+        assert!(GenericArray::<u32, U2>::slice_from_chunks(wc).len() == 4);
         kani_cover!(true);
     }}
 }
